@@ -1055,7 +1055,8 @@ class Engine:
             v = s.env.get(s.cstring(args[0])); return 0 if v is None else s.put_cstring(v)
         if n == 'setenv': s.env[s.cstring(args[0])] = s.cstring(args[1]); return 0
         if n == 'unsetenv': s.env.pop(s.cstring(args[0]), None); return 0
-        if n in ('isatty',): return s.tty
+        if n in ('isatty',): return s.tty if s.concretize(args[0], 32) == 1 else 0
+        if n == 'verif_set_tty': s.tty = int(bool(s.concretize(args[0], 32))); s.tty_cols = s.concretize(args[1], 32); return None
         if n in ('getpid',): return 4242
         if n in ('toupper', 'tolower'):
             c = s.concretize(args[0], 32)
@@ -1079,8 +1080,12 @@ class Engine:
         if n == '_ZNSt6chrono3_V212steady_clock3nowEv': s.clock += 1000000; return s.clock
         if n in ('time',): s.clock += 1000000; return s.clock // 1000000000 + 1700000000
         if n == 'getopt' or n == 'getopt_long': return 0xFFFFFFFF
-        if n in ('signal', 'sigaction', 'sigemptyset', 'sigaddset', 'sigprocmask', 'fcntl', 'ioctl', 'chdir', 'pthread_sigmask'):
-            return 0xFFFFFFFF if n == 'ioctl' else 0
+        if n == 'ioctl':
+            if s.tty and s.concretize(args[1], 64) == 0x5413 and len(args) > 2:      # TIOCGWINSZ on the pretended terminal
+                ws = s.concretize(args[2], 64); s.store(ws, 2, 24); s.store(ws + 2, 2, getattr(s, 'tty_cols', 0)); s.store(ws + 4, 2, 0); s.store(ws + 6, 2, 0); return 0
+            return 0xFFFFFFFF
+        if n in ('signal', 'sigaction', 'sigemptyset', 'sigaddset', 'sigprocmask', 'fcntl', 'chdir', 'pthread_sigmask'):
+            return 0
         if n in ('strtol', 'strtoll', 'strtoul', 'strtoull', 'atoi', 'atol'):
             # byte-wise, forking on the class of each symbolic byte (space / sign / digit / other); the value stays a term
             addr = s.concretize(args[0], 64); base = s.concretize(args[2], 32) if len(args) > 2 else 10
